@@ -90,6 +90,11 @@ def check_api(ctx, facts):
 
 
 def check_W3(ctx, facts):
+    # SEM: the acknowledgement counting interpreted for two selected nodes and every combination of replica outcomes (write_abs);
+    # subsumes the structural W3 clauses, which are the fallback
+    import write_abs
+    if write_abs.check_counting(ctx, facts, 'C06.SEM'):
+        return
     b = None
     for cand in facts.bodies.values():
         if cand.kind == 'coroutine' and cand.name == HCD + '::{closure#0}':
@@ -239,9 +244,15 @@ def check_W5(ctx, facts):
                 root = cand
         if root is None:
             continue
-        for g in facts.group(root):
-            if g is root or g.kind != 'coroutine':
-                continue
+        grp = facts.group(root)
+        # the per-node request future: a coroutine of the group, or of an async helper the group calls
+        cands = [g for g in grp if g is not root and g.kind == 'coroutine']
+        cg_ = CallGraph(facts)
+        for rb in cg_.reach(grp, bound=2):
+            for ch in facts.group(rb):
+                if ch.kind == 'coroutine' and ch not in cands and ch is not root and ch.crate == root.crate and ch.name.startswith(EC):
+                    cands.append(ch)
+        for g in cands:
             calls = list(g.calls())
             cl = [(bb, t) for bb, t in calls if cname(t) and re.match(re.escape(EC) + r'rpc::client::ConsistencyClient::(put|multi_put|del|multi_del)$', cname(t))]
             if not cl:
@@ -251,6 +262,13 @@ def check_W5(ctx, facts):
             re_ = ResultEdges(g, flow, cl[0][0])
             oks = ok_return_blocks(g)
             good = re_.inspected and bool(oks) and all(re_.ok_dominates(ob) for ob in oks) and not any(ob in re_.reachable_from_err() for ob in oks)
+            if not oks:
+                # the client's result is handed back itself (only its error is mapped): Ok exactly when the replica call succeeded
+                out_l = awaited_output_local(g, flow, cl[0][0])
+                prods = return_value_blocks(g)
+                good = out_l is not None and bool(prods) and all(
+                    s_.get('k') == 'call' and cname(s_) in ('core::result::Result::map_err', 'core::ops::try_trait::FromResidual::from_residual', 'core::result::Result::or_else')
+                    and out_l in flow.backward([op_local(s_['args'][0])]) for _rb, s_ in prods)
             ctx.ob('C06.W5', 'factory|' + m, good, site(g, cl[0][1]['cs']),
                    'the per-node request future yields Ok only when the replica call succeeded' if good else 'the per-node request reports Ok although the replica call failed')
     ctx.floor('C06.W5', 'API request factories', n, 4)
